@@ -27,6 +27,8 @@ func init() {
 			c.Clause("C15-D4")
 			ruleWrapSnapshot(c)
 			ruleStubsKeepStrictness(c)
+			ruleStubDecodesTranslated(c)
+			ruleArgumentTypeNilGuarded(c)
 			c.Clause("C15-D5/D6")
 			ruleCheckRefusals(c)
 		},
